@@ -893,3 +893,35 @@ def fam_registry(seed, n):
                 steps += [rstep("stop", t=1), rstep("rpc", via="all")]
             out.append({"name": "registry-rts-%s-%d" % (first, pre), "steps": steps, "meta": {"family": "registry"}})
     return out
+
+
+def fam_ids(seed, n, dirs=("fwd", "rev")):
+    """stream identifiers: many RPCs started in every interleaving of their
+    creation steps (a creator held between id allocation and the new-stream send,
+    or inside the carrier after it), some failing at start (channel closed, context
+    already ended), mixed shapes"""
+    rng = random.Random(seed)
+    out = []
+    for i in range(n):
+        d = dirs[i % len(dirs)]
+        nrpc = rng.randint(5, 10)
+        rpcs = []
+        for r in range(1, nrpc + 1):
+            shape = rng.choice(SHAPES)
+            cs, ss = sizes_for(shape, rng, [0, 3, 40, 300], kmax=2)
+            rpcs.append(rpc_script(r, shape, cs, ss, split=False))
+        pol = {"kind": "random", "seed": rng.randrange(1 << 30), "max": 3000}
+        kind = i % 4
+        cfg = {"dir": d}
+        meta = {"family": "ids", "done": list(range(1, nrpc + 1))}
+        if kind == 1:
+            pol.update({"allK": True, "maxK": 4, "faults": [{"at": 0, "step": {"do": "close"}}]})
+            meta["done"] = []
+        elif kind == 2:
+            cfg["gates"] = [rng.choice(["cli.alloc", "cli.new.sent", "car.sent.c2s.new"])]
+        elif kind == 3:
+            cfg["gates"] = [rng.choice(["cli.alloc", "car.sent.c2s.new"])]
+            pol["faults"] = [{"at": -2, "step": {"do": "cancel", "rpc": rng.randint(1, nrpc)}}]
+            meta["done"] = []
+        out.append(scenario("ids-%s-%d" % (d, i), cfg, rpcs, pol, meta=meta))
+    return out
